@@ -122,7 +122,7 @@ C33_NonStrictNeverStops == ~strict => (~stopped \/ KF_C33_1)
 TypeOK == /\ Len(sent) <= MaxFrames /\ Len(chan) <= MaxInFlight
           /\ stopped \in BOOLEAN
 
-\* replay generation: every terminal state (all frames sent and handled, or dispatcher dead); scenario = frames of log
-Dump == ((Len(sent) = MaxFrames /\ chan = <<>>) \/ stopped) =>
+\* replay generation: every quiescent state (all frames sent so far handled, or dispatcher dead); scenario = frames of log
+Dump == (chan = <<>> \/ stopped) =>
            PrintT(<<"HIST", ToJson([dpfx |-> dpfx, strict |-> strict, repaired |-> repaired, kf |-> KF_C33_1, log |-> log])>>)
 =============================================================================
